@@ -61,6 +61,17 @@
 //	    digest the earlier call returned with a nil error is still the digest
 //	    of ITS bytes after the later call has run (a returned slice must not
 //	    live in state the next call reuses).
+//
+// Spellings. The two paths are ARGUMENTS WRITTEN BY A CALLER, and a copy hands
+// the same string to several primitives in turn (open, create, stat, chmod),
+// each of which resolves it on its own. One file has many names - a doubled
+// separator, a "." element, "dir/..", a name relative to the current directory
+// - and every primitive of a file system has to agree on what they denote. So
+// how each of the two operands is spelled is a dimension (see spellings), on
+// every pair of file systems; the oracle is unchanged: (a)/(f) a copy that can
+// succeed returns nil, (c) and then the destination - read back under its
+// shortest name from the innermost file system - has the bytes and the
+// permission bits of the source.
 package main
 
 import (
@@ -329,6 +340,119 @@ func (k *kit) putDest(kind string, size int) error {
 	return fmt.Errorf("unknown destination kind %q", kind)
 }
 
+// ---------------------------------------------------------------------------
+// spellings: how the caller writes the two path operands
+//
+// General lesson: a helper that is given a NAME passes that one string to
+// several primitives (open, create, stat, chmod ...), and each primitive turns
+// it into a node by itself - one cleans it, one makes it absolute, one looks
+// it up as written. They all agree on the shortest absolute spelling, which is
+// the only one a harness produces when it builds its operands with Join. Every
+// other spelling of the same file is as legitimate (dir + "/" + name with a
+// dir that ends in a separator, a "./" left by a walk, "sub/..", a name
+// relative to the current directory), so the spelling of every path operand
+// is enumerated - independently for each operand, on every file system - and
+// judged by the unchanged oracle against the node, which is read back under
+// its shortest name.
+//
+// Only spellings that name the same file under Linux path resolution are
+// used: a trailing separator is not one of them (open(2) of "f/" is ENOTDIR
+// resp. EISDIR with O_CREAT), and ".." is only ever applied to a directory
+// that exists (spellDir, planted next to the files).
+
+const (
+	spClean     = ""                // <dir>/<base>, what Join gives
+	spDoubleSep = "double-sep"      // <dir>//<base>
+	spDot       = "dot"             // <dir>/./<base>
+	spDotDot    = "dotdot"          // <dir>/sp.d/../<base>
+	spRel       = "relative"        // ./<base>, the current directory is <dir>
+	spRelBare   = "relative-bare"   // <base>, the current directory is <dir>
+	spRelDotDot = "relative-dotdot" // sp.d/../<base>, the current directory is <dir>
+	spAboveRoot = "above-root"      // /..<dir>/<base>: ".." of the root is the root
+	spSepRun    = "sep-run"         // every separator of <dir>/<base> but the first written three times
+)
+
+// spellDir is the directory the "dir/.." spellings pass through.
+const spellDir = "sp.d"
+
+func spellIsRelative(how string) bool { return strings.HasPrefix(how, "relative") }
+
+func spellNeedsDir(how string) bool { return how == spDotDot || how == spRelDotDot }
+
+// spell writes the name of <dir>/<base> in the given spelling, with the
+// separator of the file system the name is handed to.
+func spell(v avfs.VFS, dir, base, how string) (string, error) {
+	sep := string(v.PathSeparator())
+
+	switch how {
+	case spClean:
+		return v.Join(dir, base), nil
+	case spDoubleSep:
+		return dir + sep + sep + base, nil
+	case spDot:
+		return dir + sep + "." + sep + base, nil
+	case spDotDot:
+		return dir + sep + spellDir + sep + ".." + sep + base, nil
+	case spRel:
+		return "." + sep + base, nil
+	case spRelBare:
+		return base, nil
+	case spRelDotDot:
+		return spellDir + sep + ".." + sep + base, nil
+	case spAboveRoot:
+		if !strings.HasPrefix(dir, sep) {
+			return "", fmt.Errorf("spelling %q needs a rooted directory, got %q", how, dir)
+		}
+
+		return sep + ".." + dir + sep + base, nil
+	case spSepRun:
+		if !strings.HasPrefix(dir, sep) {
+			return "", fmt.Errorf("spelling %q needs a rooted directory, got %q", how, dir)
+		}
+
+		return sep + strings.ReplaceAll(dir[len(sep):]+sep+base, sep, sep+sep+sep), nil
+	}
+
+	return "", fmt.Errorf("unknown spelling %q", how)
+}
+
+// prepareSpelling makes what the spellings of one side need: the directory
+// "dir/.." passes through, and the current directory for a relative name. The
+// current directory of an OsFS is that of the process: undo puts it back.
+func (k *kit) prepareSpelling(hows ...string) (undo func(), err error) {
+	undo = func() {}
+
+	needDir, rel := false, false
+	for _, h := range hows {
+		needDir = needDir || spellNeedsDir(h)
+		rel = rel || spellIsRelative(h)
+	}
+
+	if needDir {
+		if err = k.raw.MkdirAll(k.raw.Join(k.rawDir, spellDir), 0o755); err != nil {
+			return undo, err
+		}
+	}
+
+	if rel {
+		if k.name == fsOs {
+			wd, werr := os.Getwd()
+			if werr != nil {
+				return undo, werr
+			}
+
+			undo = func() { _ = os.Chdir(wd) }
+		}
+
+		// set on the file system the call is made on (below FailFS, which forwards it)
+		if err = k.top.Chdir(k.dir); err != nil {
+			return undo, err
+		}
+	}
+
+	return undo, nil
+}
+
 // snapshot renders everything the scenario planted around a base name
 // (x.bin, x.real, x.mid): kind, permission bits, link target, bytes, entries.
 func (k *kit) snapshot(stem string) string {
@@ -381,6 +505,11 @@ type scenario struct {
 	SrcKind    string `json:"src_kind,omitempty"` // kind of the source path; empty = file
 	DstState   string `json:"dst_state"`          // kind of the destination path: absent | present | dir | symlink | ... | n/a
 	SrcMode    uint32 `json:"src_mode"`
+
+	// how the two path operands are written (see spellings); empty = the
+	// shortest absolute name
+	SrcSpell string `json:"src_spelling,omitempty"`
+	DstSpell string `json:"dst_spelling,omitempty"`
 
 	// Before is a call made earlier with the same hasher (and the same FailFS
 	// wrappers, buffer pool, file systems); nil: the hasher is entered as
@@ -451,6 +580,28 @@ func (s scenario) shape() string {
 	return "src=" + s.srcKind() + ",dst=" + s.DstState
 }
 
+// spelling names how the operands are written, for signatures and statistics;
+// empty when both are the shortest absolute names.
+func (s scenario) spelling() string {
+	if s.SrcSpell == spClean && s.DstSpell == spClean {
+		return ""
+	}
+
+	n := func(h string) string {
+		if h == spClean {
+			return "clean"
+		}
+
+		return h
+	}
+
+	if s.Func == "HashFile" {
+		return "src:" + n(s.SrcSpell)
+	}
+
+	return "src:" + n(s.SrcSpell) + ",dst:" + n(s.DstSpell)
+}
+
 func (s scenario) pair() string {
 	d := s.DstFS
 	if s.Shared {
@@ -479,7 +630,12 @@ func (s scenario) String() string {
 		u = fmt.Sprintf("+hasher after %s(size=%d, fault k=%d %s:%s %s)", b.Func, b.Size, b.Plan.K, b.Plan.Side, b.Plan.Primitive, b.Plan.Err)
 	}
 
-	return fmt.Sprintf("%s%s %s size=%d src=%s dst=%s srcmode=%#o", s.variant(), u, s.pair(), s.Size, s.srcKind(), s.DstState, s.SrcMode)
+	sp := ""
+	if x := s.spelling(); x != "" {
+		sp = " spelled " + x
+	}
+
+	return fmt.Sprintf("%s%s %s size=%d src=%s dst=%s srcmode=%#o%s", s.variant(), u, s.pair(), s.Size, s.srcKind(), s.DstState, s.SrcMode, sp)
 }
 
 type plan struct {
@@ -716,8 +872,41 @@ func run(sc scenario, pl plan) (res result, herr error) {
 		}
 	}
 
-	srcPath := srcKit.top.Join(srcKit.dir, "src.bin")
-	dstPath := dstKit.top.Join(dstKit.dir, "dst.bin")
+	srcPath, err := spell(srcKit.top, srcKit.dir, "src.bin", sc.SrcSpell)
+	if err != nil {
+		return res, harnessError{err.Error()}
+	}
+
+	dstPath, err := spell(dstKit.top, dstKit.dir, "dst.bin", sc.DstSpell)
+	if err != nil {
+		return res, harnessError{err.Error()}
+	}
+
+	if sc.spelling() != "" {
+		if dstKit != srcKit && sc.SrcFS == fsOs && sc.DstFS == fsOs && spellIsRelative(sc.SrcSpell) && spellIsRelative(sc.DstSpell) {
+			return res, harnessError{fmt.Sprintf("%s: two OsFS directories cannot both be the current directory of the process", sc)}
+		}
+
+		sides := []struct {
+			k    *kit
+			hows []string
+		}{{srcKit, []string{sc.SrcSpell}}, {dstKit, []string{sc.DstSpell}}}
+
+		if dstKit == srcKit {
+			sides = sides[:1]
+			sides[0].hows = []string{sc.SrcSpell, sc.DstSpell}
+		}
+
+		for _, sd := range sides {
+			undo, perr := sd.k.prepareSpelling(sd.hows...)
+
+			defer undo()
+
+			if perr != nil {
+				return res, harnessError{fmt.Sprintf("%s: preparing the spelling on %s: %v", sc, sd.k.name, perr)}
+			}
+		}
+	}
 
 	// The earlier call of a two-call history: another file, the same hasher,
 	// the same wrappers. Its digest is kept AS RETURNED (no copy) and looked at
@@ -955,7 +1144,7 @@ func newBook() *book {
 }
 
 func chkKey(sc scenario, side, prim string) string {
-	return sc.Func + "|" + sc.Hasher + "|" + side + "|" + prim + "|" + sc.shape() + "|" + sc.entry()
+	return sc.Func + "|" + sc.Hasher + "|" + side + "|" + prim + "|" + sc.shape() + "|" + sc.entry() + "|" + sc.spelling()
 }
 
 func (b *book) noteChecked(sc scenario, side, prim string) {
@@ -985,6 +1174,14 @@ func (b *book) add(sc scenario, side, prim, kind string, extra map[string]string
 	// likewise the state of the hasher on entry, when it is not a fresh one
 	if e := sc.entry(); e != "" {
 		sig["hasher_entry"] = e
+	}
+
+	// and the spelling of the operands, when one of them is not the shortest name
+	if sc.spelling() != "" {
+		sig["src_spelling"] = map[bool]string{true: "clean", false: sc.SrcSpell}[sc.SrcSpell == spClean]
+		if sc.Func != "HashFile" {
+			sig["dst_spelling"] = map[bool]string{true: "clean", false: sc.DstSpell}[sc.DstSpell == spClean]
+		}
 	}
 
 	gk := sig.String()
@@ -1166,6 +1363,8 @@ import (
 	"errors"
 	"hash"
 	"io/fs"
+	"os"
+	"strings"
 	"testing"
 
 	"github.com/avfs/avfs"
@@ -1262,8 +1461,47 @@ func plant(t *testing.T, v avfs.VFS, dir, stem, kind string, data []byte, mode f
 	}
 }
 
+// spell writes the name of dir/base the way the caller of the copy does (how == "": the shortest absolute name)
+// and makes what that spelling needs: the directory "sp.d/.." passes through, the current directory for a relative name.
+func spell(t *testing.T, top, raw avfs.VFS, dir, rawDir, base, how string) string {
+	sep := string(top.PathSeparator())
+	if strings.Contains(how, "dotdot") {
+		must(t, raw.MkdirAll(raw.Join(rawDir, "sp.d"), 0o755))
+	}
+	if strings.HasPrefix(how, "relative") {
+		wd, err := os.Getwd() // the current directory of an OsFS is that of the process
+		must(t, err)
+		t.Cleanup(func() { _ = os.Chdir(wd) })
+		must(t, top.Chdir(dir))
+	}
+	switch how {
+	case "":
+		return top.Join(dir, base)
+	case "double-sep":
+		return dir + sep + sep + base
+	case "dot":
+		return dir + sep + "." + sep + base
+	case "dotdot":
+		return dir + sep + "sp.d" + sep + ".." + sep + base
+	case "relative":
+		return "." + sep + base
+	case "relative-bare":
+		return base
+	case "relative-dotdot":
+		return "sp.d" + sep + ".." + sep + base
+	case "above-root":
+		return sep + ".." + dir + sep + base
+	case "sep-run":
+		return sep + strings.ReplaceAll(dir[len(sep):]+sep+base, sep, sep+sep+sep)
+	}
+	t.Fatalf("unknown spelling %%q", how)
+	return ""
+}
+
 func TestC16Replay(t *testing.T) {
 	const (
+		srcSpell   = %q // how the source operand is written ("": shortest absolute name)
+		dstSpell   = %q // how the destination operand is written
 		size       = %d
 		srcMode    = %#o
 		srcKind    = %q // what the source path is
@@ -1305,7 +1543,8 @@ func TestC16Replay(t *testing.T) {
 	src, dst := failfs.New(srcTop), failfs.New(dstTop)
 	_ = src.SetFailFunc(ff)
 	_ = dst.SetFailFunc(ff)
-	srcPath, dstPath := srcTop.Join(srcDir, "src.bin"), dstTop.Join(dstDir, "dst.bin")
+	srcPath := spell(t, srcTop, srcRaw, srcDir, srcRawDir, "src.bin", srcSpell)
+	dstPath := spell(t, dstTop, dstRaw, dstDir, dstRawDir, "dst.bin", dstSpell)
 	_, _ = dst, dstPath
 	%s
 	if err != nil {
@@ -1342,7 +1581,7 @@ func TestC16Replay(t *testing.T) {
 		t.Fatalf("nil error but the digest is %%x", sum)
 	}
 }
-`, sc.Size, sc.SrcMode, sc.srcKind(), sc.DstState, sc.Func != "HashFile", shared, sc.possible(),
+`, sc.SrcSpell, sc.DstSpell, sc.Size, sc.SrcMode, sc.srcKind(), sc.DstState, sc.Func != "HashFile", shared, sc.possible(),
 		pl.K, failing, required, pl.Err == "permdenied", sc.Hasher == "sha512", sc.SrcFS, dstFS, call)
 }
 
@@ -1390,6 +1629,9 @@ type stats struct {
 	refusedDstChanged                    map[string]int            // shape -> refused copies after which the destination side differs
 	shapeScenarios                       int
 	wallPlain, wallShapes, wallSequel    float64
+	wallSpell                            float64
+	spellScenarios                       int
+	spellOutcome                         map[string]map[string]int // spelling -> outcome of the fault-free run -> scenarios
 	sequelHeads, sequelRuns              int
 	entryStates                          map[string]map[string]int // state of the hasher on entry -> what it was in fact -> runs
 }
@@ -1555,6 +1797,27 @@ func explore(sc scenario, bk *book, st *stats) (result, error) {
 	}
 
 	checkConverse(bk, sc, nofault, base.trace, base)
+
+	if sp := sc.spelling(); sp != "" {
+		oc := "non-nil"
+
+		switch {
+		case base.Outcome != "returned":
+			oc = base.Outcome
+		case base.ErrNil:
+			oc = "nil"
+		}
+
+		inc2(st.spellOutcome, sp, oc)
+
+		if key := "spelling " + sc.variant(); sc.SrcSpell != spClean && sc.DstSpell != spClean && sc.SrcSpell != sc.DstSpell && !st.sampledVariant[key] {
+			st.sampledVariant[key] = true
+			st.samples = append(st.samples, map[string]any{
+				"scenario": sc.String(), "plan": "no fault", "trace": compress(base.trace),
+				"observed_error": map[bool]string{true: "nil", false: base.Err}[base.ErrNil], "dst_perm_after": base.DstPerm, "src_perm": base.SrcPerm,
+			})
+		}
+	}
 
 	if sh := sc.shape(); sh != "" {
 		oc := "non-nil"
@@ -1919,6 +2182,57 @@ func scenarios(tier string) []scenario {
 
 	skippedUnsupported = skipped
 
+	// spellings of the two operands: every (spelling of the source, spelling of
+	// the destination) but the clean pair, which is everything above; the file
+	// systems differ in how they resolve a name, so on every pair.
+	sp := spellSpace(tier)
+	skippedSpellings = 0
+
+	for _, size := range sp.sizes {
+		for _, p := range pairs {
+			for _, ss := range sp.spellings {
+				for _, dsp := range sp.spellings {
+					if ss == spClean && dsp == spClean {
+						continue
+					}
+
+					// the process has one current directory: two OsFS directories cannot both be it
+					if !p.shared && p.src == fsOs && p.dst == fsOs && spellIsRelative(ss) && spellIsRelative(dsp) {
+						skippedSpellings++
+
+						continue
+					}
+
+					for _, ds := range []string{kDstAbsent, kDstPresent} {
+						for _, v := range [][2]string{{"CopyFile", "none"}, {"CopyFileHash", "nil"}, {"CopyFileHash", "sha512"}} {
+							if !sp.variant(v[1]) {
+								continue
+							}
+
+							out = append(out, scenario{
+								Func: v[0], Hasher: v[1], DstFS: p.dst, SrcFS: p.src, Shared: p.shared, Size: size,
+								DstState: ds, SrcMode: 0o640, SrcSpell: ss, DstSpell: dsp, noFaults: !sp.faults(v[1], size),
+							})
+						}
+					}
+				}
+			}
+		}
+
+		for _, f := range hashFS {
+			for _, ss := range sp.spellings {
+				if ss == spClean {
+					continue
+				}
+
+				out = append(out, scenario{
+					Func: "HashFile", Hasher: "sha512", DstFS: "-", SrcFS: f, Size: size,
+					DstState: "n/a", SrcMode: 0o640, SrcSpell: ss, noFaults: !sp.faults("sha512", size),
+				})
+			}
+		}
+	}
+
 	// two-call histories on one hasher, last (the newest dimension); each entry
 	// is the HEAD of a family: exploreSequel derives from it one history per
 	// (consultation of the earlier call, error)
@@ -1974,6 +2288,41 @@ func sequels(tier string) sequelSpace {
 		firstSizes: []int{32769, 65537}, sizes: []int{0, 1, 32769, 65537}, laterFaults: true,
 		text: common + "earlier file of 32769 and 65537 bytes, later source of 0, 1, 32769, 65537 bytes; the later call runs fault-free after a faulted earlier call and under every single-fault plan after a fault-free one " +
 			"(at most one fault per history)",
+	}
+}
+
+// spellingSpace is the part of the space that varies how the two operands
+// are written.
+type spellingSpace struct {
+	spellings  []string
+	sizes      []int
+	variant    func(hasher string) bool           // which function variants copy
+	faults     func(hasher string, size int) bool // single-fault plans too?
+	faultsText string
+}
+
+var skippedSpellings int
+
+func spellSpace(tier string) spellingSpace {
+	all := []string{spClean, spDoubleSep, spDot, spDotDot, spRel, spRelBare, spRelDotDot, spAboveRoot, spSepRun}
+
+	if tier == "quick" {
+		return spellingSpace{
+			spellings: all,
+			sizes:     []int{0, 32769},
+			// CopyFile is CopyFileHash with a nil hasher: the sha512 variant makes every call the others make
+			variant:    func(hasher string) bool { return hasher != "nil" },
+			faults:     func(string, int) bool { return false },
+			faultsText: "CopyFile, CopyFileHash(sha512) and HashFile, fault-free",
+		}
+	}
+
+	return spellingSpace{
+		spellings:  all,
+		sizes:      []int{0, 1, 32769},
+		variant:    func(string) bool { return true },
+		faults:     func(hasher string, size int) bool { return hasher == "sha512" && size <= 1 },
+		faultsText: "every function variant, fault-free; every single-fault plan for the sha512 variants (CopyFileHash, HashFile) at sizes 0 and 1",
 	}
 }
 
@@ -2162,7 +2511,7 @@ func main() {
 		baseTraces: map[string]map[string]int{}, traceLens: map[int]int{}, pairs: map[string]int{},
 		sampledVariant: map[string]bool{}, hashFS: map[string]int{},
 		shapeOutcome: map[string]map[string]int{}, refusedDstChanged: map[string]int{},
-		entryStates: map[string]map[string]int{},
+		entryStates: map[string]map[string]int{}, spellOutcome: map[string]map[string]int{},
 	}
 	bk := newBook()
 	all := scenarios(*tier)
@@ -2200,6 +2549,9 @@ func main() {
 		switch {
 		case sc.Before != nil:
 			st.wallSequel += time.Since(t0).Seconds()
+		case sc.spelling() != "":
+			st.wallSpell += time.Since(t0).Seconds()
+			st.spellScenarios++
 		case sc.plain():
 			st.wallPlain += time.Since(t0).Seconds()
 		default:
@@ -2272,6 +2624,10 @@ func main() {
 	sizes, _, _, _ := space(*tier)
 	sh := shapes(*tier)
 	sq := sequels(*tier)
+	spl := spellSpace(*tier)
+	spellText := "every (spelling of the source operand, spelling of the destination operand) of " + fmt.Sprint(spellNames(spl.spellings)) +
+		" except clean/clean (= everything else) x every fs pair x sizes " + fmt.Sprint(spl.sizes) + " x destination {absent, present} x " + spl.faultsText +
+		"; HashFile: every spelling of its operand on every hashfile fs"
 	usedText := "fault-free and every single-fault plan"
 
 	if !usedFaults(*tier) {
@@ -2315,19 +2671,25 @@ func main() {
 		"exhaustive":                                 exhaustive,
 		"bound": "single fault per run; every k of every fault-free trace; " + *tier + " space. Shapes: every (kind of source path, kind of destination path) of the listed kinds x shape sizes x every fs pair x every function variant; on them: " +
 			sh.faultsText + ". Hasher on entry: fresh (everything above); written to by the caller (every plain scenario of the sha512 variants, " + usedText +
-			"); left behind by an earlier call on the same hasher: " + sq.text,
-		"shape_source_kinds":                        sh.srcKinds,
-		"shape_destination_kinds":                   sh.dstKinds,
-		"shape_sizes":                               sh.sizes,
-		"shape_scenarios":                           st.shapeScenarios,
-		"shape_fault_free_outcomes":                 st.shapeOutcome,
-		"shape_combinations_skipped_no_links_in_fs": skippedUnsupported,
-		"shape_refused_copies_dst_side_differs(recorded, not judged)": st.refusedDstChanged,
-		"known_findings_matched": append([]string{}, rep.KnownMatched()...),
-		"scratch_is_tmpfs":       tmpfs,
-		"concurrent_programs":    cProgs,
-		"concurrent_schedules":   cExecs,
-		"concurrent_samples":     cSamples,
+			"); left behind by an earlier call on the same hasher: " + sq.text + ". Spelling of the path operands: " + spellText,
+		"operand_spellings":                                            spellNames(spl.spellings),
+		"operand_spelling_space":                                       spellText,
+		"operand_spelling_sizes":                                       spl.sizes,
+		"operand_spelling_scenarios":                                   st.spellScenarios,
+		"operand_spelling_fault_free_outcomes":                         st.spellOutcome,
+		"operand_spelling_combinations_skipped_two_osfs_both_relative": skippedSpellings,
+		"shape_source_kinds":                                           sh.srcKinds,
+		"shape_destination_kinds":                                      sh.dstKinds,
+		"shape_sizes":                                                  sh.sizes,
+		"shape_scenarios":                                              st.shapeScenarios,
+		"shape_fault_free_outcomes":                                    st.shapeOutcome,
+		"shape_combinations_skipped_no_links_in_fs":                    skippedUnsupported,
+		"shape_refused_copies_dst_side_differs(recorded, not judged)":  st.refusedDstChanged,
+		"known_findings_matched":                                       append([]string{}, rep.KnownMatched()...),
+		"scratch_is_tmpfs":                                             tmpfs,
+		"concurrent_programs":                                          cProgs,
+		"concurrent_schedules":                                         cExecs,
+		"concurrent_samples":                                           cSamples,
 	}
 
 	werr := ev.Write(filepath.Join(verifDir, "evidence", *id+".json"), ev.Evidence{
@@ -2343,6 +2705,10 @@ func main() {
 				"link kinds are skipped where the innermost file system has no symbolic links (OrefaFS); " + sh.faultsText,
 			"a nil error is judged against the source FILE (links followed on the innermost file system): the destination path, links followed, must be a regular file with its bytes and permission bits; " +
 				"a source that is a directory, missing or a link to either, or a destination that is a directory (or a link to one), must give a non-nil error; whether a refused copy leaves the destination untouched is recorded, not judged",
+			"spelling of the operands: " + spellText + "; source mode 0640; clean = dir/base as Join gives it, double-sep = dir//base, dot = dir/./base, dotdot = dir/sp.d/../base (sp.d is an existing directory), " +
+				"relative = ./base with the current directory of the file system the call is made on set to dir (relative-bare = base, relative-dotdot = sp.d/../base), above-root = /..dir/base, sep-run = every separator but the first written three times; " +
+				"only spellings that name the same file under Linux path resolution (no trailing separator, no '..' through a file or a missing name); the shapes, the two-call histories and all fault plans outside this dimension use the clean spelling; " +
+				"two OsFS instances are not both given relative names (one current directory per process)",
 			"source and destination never name the same node (no copy of a file onto itself or onto a link to itself)",
 			"OsFS instances live on a scratch directory (tmpfs: " + strconv.FormatBool(tmpfs) + ") and share the process",
 			"failure of closing the source file is not in the property's list: recorded, not required to be reported",
@@ -2360,12 +2726,27 @@ func main() {
 		*tier, done, len(all), st.runs, st.baseRuns, st.faultRuns, len(st.faultClasses), len(st.pairs), len(st.hashFS), len(groups), rep.NewCount(), exhaustive, ev.Elapsed())
 	fmt.Printf("c16: shapes (kind of source path x kind of destination path): scenarios=%d distinct shapes=%d skipped as unsupported by the file system=%d wall plain=%.1fs shapes=%.1fs\n",
 		st.shapeScenarios, len(st.shapeOutcome), skippedUnsupported, st.wallPlain, st.wallShapes)
+	fmt.Printf("c16: spelling of the path operands: scenarios=%d distinct (src, dst) spellings=%d skipped (two OsFS, both relative)=%d wall=%.1fs\n",
+		st.spellScenarios, len(st.spellOutcome), skippedSpellings, st.wallSpell)
 	fmt.Printf("c16: hasher on entry: two-call histories on one hasher: heads=%d + histories with a faulted earlier call=%d; entry states=%v wall=%.1fs\n",
 		st.sequelHeads, st.sequelRuns, st.entryStates, st.wallSequel)
 
 	_ = os.RemoveAll(scratchRoot)
 
 	os.Exit(code)
+}
+
+// spellNames lists spellings by the names used in signatures and evidence.
+func spellNames(hows []string) []string {
+	out := make([]string, len(hows))
+	for i, h := range hows {
+		out[i] = h
+		if h == spClean {
+			out[i] = "clean"
+		}
+	}
+
+	return out
 }
 
 func lensToMap(m map[int]int) map[string]int {
